@@ -254,6 +254,8 @@ class ResolveAnchorIds(Transform):
                     reftarget=target,
                     refexplicit=bool(refnode.children),
                 )
+                # (warnings about the unresolved reference are reported where the link is)
+                pending.source, pending.line = refnode.source, refnode.line
                 inner_node = nodes.inline(
                     "", "", classes=["xref", "myst"] + refnode["classes"]
                 )
